@@ -277,6 +277,12 @@ def literal_program(L):
                 for e in (f'{x} {op} {k}', f'{k} {op} {x}', f'{x} {op} {L}', f'not ({x} {op} {k})'):
                     body.append(f"if ({e}) {{ write('T'); }} else {{ write('F'); }} bool lr{len(body)} = {e}; write(lr{len(body)} is int); "
                                 f"try {{ !truth_is_defeat({e}); write('F'); }} undo {{ write('T'); }} write(' ');")
+        # == / != of a run-time bool with the literal, on either side, as value, branch and defeat
+        for op in ('==', '!='):
+            for x in ('(a is bool)', '(a > 3)', '(not (a is bool))'):
+                for e in (f'{x} {op} {k}', f'{k} {op} {x}'):
+                    body.append(f"if ({e}) {{ write('T'); }} else {{ write('F'); }} bool lq{len(body)} = {e}; write(lq{len(body)} is int); "
+                                f"try {{ !truth_is_defeat({e}); write('F'); }} undo {{ write('T'); }} write(' ');")
     return 'empty @is_you(const int[] v) {\n  for (int i = 0; i < v.length; i += 1) {\n    int a = v[i];\n    ' + '\n    '.join(body) + '\n    writeln();\n  }\n}\n'
 
 
@@ -288,6 +294,11 @@ def literal_logic_expected(a0, L):
                 r = (x and bool(L)) if op == 'and' else (x or bool(L))
                 if neg:
                     r = not r
+                out += fmt(r) + (b'1' if r else b'0') + fmt(r) + b' '
+    for op in ('==', '!='):
+        for x in (a0 != 0, a0 > 3, a0 == 0):
+            for _side in (0, 1):
+                r = (x == bool(L)) if op == '==' else (x != bool(L))
                 out += fmt(r) + (b'1' if r else b'0') + fmt(r) + b' '
     return bytes(out)
 
